@@ -210,8 +210,15 @@ def run_case(ctx, job, idx, rng, st):
 
     # maneuvers dated with the label `l` on an orbit whose epoch is labelled `le` (the propagator derives its own dates
     # from the epoch): a burn window and an impulse, both off the step grid, strictly inside the propagated span
-    burn_start = epoch.shifted(round(rng.uniform(303.0, 350.0), 6))
-    burn_dur = round(rng.uniform(90.0, 240.0), 6)
+    # ... and at least 1 s away from every Runge-Kutta stage time of the 60 s grid (multiples of 30 s for the default rk4):
+    # the integrator samples the burn window at its stage dates, so an edge within the time resolution of a stage would
+    # turn a microsecond of relabelling into a whole stage of thrust (an artefact of the discretisation, not of labels)
+    while True:
+        b0 = round(rng.uniform(303.0, 350.0), 6)
+        burn_dur = round(rng.uniform(90.0, 240.0), 6)
+        if all(1.0 < (x % 30.0) < 29.0 for x in (b0, b0 + burn_dur)):
+            break
+    burn_start = epoch.shifted(b0)
     burn_acc = [rng.uniform(-1, 1) * 0.01 for _ in range(3)]
     imp_at = epoch.shifted(round(rng.uniform(663.0, 710.0), 6))
     imp_dv = [rng.uniform(-1, 1) for _ in range(3)]
